@@ -23,6 +23,9 @@ fn run(r: &mut Run) -> Result<(), MachineryError> {
     let alpha = [L, SP, HY, NL, W, CR];
     text_space(r, "C09/texts", &alpha, t.pick(5, 7), &gamma(), M_C09, WidthMode::Display, 5)?;
     pmachine::p_space(r, "C09/paragraph-machine", t.pick(3, 5), false, true)?;
+    let gc = Gamma { seps: seps(), algs: vec![Alg::CustomOnePerLine, Alg::CustomNaiveGreedy], spls: vec![Spl::Hyphen], bws: vec![true, false], indents: vec![("", ""), (">", ""), ("", "> ")], crlf: vec![false] };
+    text_space(r, "C09/custom-algorithms", &[L, LLL, SP, NL, HY, W], t.pick(4, 6), &gc, M_C09, WidthMode::Display, 0)?;
+    scale::text_scale(r, "C09/long-paragraphs", "C09")?;
 
     // (d) equivariance under LF -> CRLF for LF texts (including lone CRs)
     let g = Gamma { crlf: vec![false], ..gamma() };
